@@ -922,6 +922,20 @@ func ruleC17(r *Run, p *Program, rule string) {
 		}
 		r.check(eof, rule+".slice-guards", key+":eof", p.Pos(f.Pos()), "out-of-range Slice returns io.EOF", key+" does not return io.EOF for an out-of-range request (the other implementations do)")
 	}
+	// directory entries: Info() of a listed entry does not depend on whether the file is open (the OS file systems
+	// lstat the name); the in-memory entry must not fail for a file without open handles
+	if f := p.Fn("(*fs.memFile).Info"); r.anchor(rule+".direntry-info", "(*fs.memFile).Info", f != nil) {
+		r.fn(funcKey(f))
+		okv := len(returnsOf(f)) > 0
+		for _, ret := range returnsOf(f) {
+			if !isNilReturn(f, ret) {
+				okv = false
+			}
+		}
+		r.check(okv, rule+".direntry-info", "(*fs.memFile).Info", p.Pos(f.Pos()),
+			"the in-memory directory entry's Info() always succeeds, like lstat on the OS file systems",
+			"the in-memory directory entry's Info() can fail (it goes through Stat(), which refuses files without an open handle) where the OS file systems succeed: DB.FileSize and any code sizing listed files returns 'file already closed' on fs.Mem and a size on fs.OS / fs.OSMMap")
+	}
 	// mapping size depends on the file size when a file is first mapped
 	if f := p.Fn("(*fs.osMMapFile).mremap"); r.anchor(rule+".mapping-covers-file", "(*fs.osMMapFile).mremap", f != nil) {
 		r.fn(funcKey(f))
